@@ -22,7 +22,9 @@ Inductive hop :=
 | CheckOk              (* the outstanding health check succeeds *)
 | CheckFail            (* the outstanding health check fails *)
 | Release              (* backend removed by reload: close(closeChan) *)
-| SetThr (ft st : Z).  (* the conf fetcher now returns other thresholds *)
+| SetThr (ft st : Z)   (* the conf fetcher now returns other thresholds *)
+| RemoveCluster.       (* reload removes the backend's whole cluster: the conf fetcher returns nil from now on
+                          (= unreachable failure threshold 1000000) AND the backend is released *)
 
 (* top of the check loop after an iteration that did not restore the backend:
    select on closeChan -> exit when released, otherwise issue the next request *)
@@ -56,6 +58,7 @@ Definition hstep (s : hstate) (o : hop) : hstate :=
     if released s then s   (* the harness releases once; double release is C09's subject *)
     else mkH (avail s) (failN s) (succN s) (checkers s) true (restarted s) (failT s) (succT s) (reqT s)
   | SetThr ft st => mkH (avail s) (failN s) (succN s) (checkers s) (released s) (restarted s) ft st (reqT s)
+  | RemoveCluster => mkH (avail s) (failN s) (succN s) (checkers s) true (restarted s) 1000000 (succT s) (reqT s)
   end.
 
 Fixpoint hrun (s : hstate) (ops : list hop) : list hstate :=
@@ -107,6 +110,9 @@ Definition mon_step (m : mon) (o : hop) (av : bool) (pend : Z) : option mon :=
   | SetThr ft st =>
     if Bool.eqb av (m_avail m) && (pend =? m_pend m)
     then Some (mkM av (consec m) (okrun m) (m_rel m) (drained m) ft st pend (m_req m)) else None
+  | RemoveCluster =>
+    if Bool.eqb av (m_avail m) && (pend =? m_pend m)
+    then Some (mkM av (consec m) (okrun m) true (drained m || (pend =? 0)) 1000000 (m_st m) pend (m_req m)) else None
   end.
 Fixpoint mon_run (m : mon) (tr : list (hop * (bool * Z))) : bool :=
   match tr with
